@@ -679,6 +679,65 @@ Definition load (fx3 fx4 : bool) (ds : list ruledef) : loaded :=
     end
   end.
 
+(** ---- two rule sets from two sources: AddRuleSet(src1, first [k] rules), AddRuleSet(src2, the others).
+    Each AddRuleSet works on a clone of the tree and is all-or-nothing; values of different sources
+    must not share a node ([canAdd]: "only rules from the same rule set can be placed in one node"). *)
+
+(** the values of the node value [v] is stored at *)
+Fixpoint values_with (v : nat) (t : tree) {struct t} : option (list nat) :=
+  if existsb (Nat.eqb v) (t_values t) then Some (t_values t) else
+  let st := (fix go (l : list (ascii * tree)) : option (list nat) :=
+               match l with
+               | [] => None
+               | (_, child) :: r => match values_with v child with Some x => Some x | None => go r end
+               end) (t_statics t) in
+  match st with
+  | Some x => Some x
+  | None =>
+    match match t_wild t with Some w => values_with v w | None => None end with
+    | Some x => Some x
+    | None => match t_catch t with
+              | Some c => if existsb (Nat.eqb v) (t_values c) then Some (t_values c) else None
+              | None => None
+              end
+    end
+  end.
+
+(** addRulesTo for the second source: every value must land on a node without values of the first *)
+Fixpoint add_entries_src (fx3 : bool) (n1 : nat) (t : tree) (vid : nat) (es : list centry) : ares :=
+  match es with
+  | [] => AOk t
+  | e :: r => match tree_add fx3 t (ce_path e) vid (ce_bt e) with
+              | AOk t' =>
+                match values_with vid t' with
+                | Some vs => if forallb (Nat.leb n1) vs then add_entries_src fx3 n1 t' (S vid) r else AInvalid
+                | None => AInvalid
+                end
+              | x => x
+              end
+  end.
+
+(** [k] = number of rules in the first rule set ([k >= length ds]: one rule set only) *)
+Definition load2 (fx3 fx4 : bool) (k : nat) (ds : list ruledef) : loaded :=
+  match create_rules fx4 ds with
+  | Rejected => CreateFailed
+  | Ok cs =>
+    let es := entries_of 0 cs in
+    let es1 := filter (fun e => Nat.ltb (ce_rule e) k) es in
+    let es2 := filter (fun e => negb (Nat.ltb (ce_rule e) k)) es in
+    match add_entries fx3 empty_tree 0 es1 with
+    | AOk t1 =>
+      if is_nil es2 then Loaded es t1 else
+      match add_entries_src fx3 (length es1) t1 (length es1) es2 with
+      | AOk t2 => Loaded es t2
+      | AInvalid => Loaded es t1          (* the second rule set is refused, the first stays *)
+      | AFuel => ModelFuel
+      end
+    | AInvalid => AddFailed
+    | AFuel => ModelFuel
+    end
+  end.
+
 Definition lookup_path (q : request) : string :=
   if String.eqb (q_rawpath q) "" then q_path q else q_rawpath q.
 
